@@ -33,7 +33,10 @@ RULE = (
   "summed margin; each side draws priority (all equal in 60% of the cases, else per side from {-1,0,1,2}), solmix from "
   "{0, 1e-16, 0.2, 1, 3, 10}, solref standard (timeconst down to below 2*timestep) or direct, solimp (incl. values the "
   "impedance has to clip), friction, margin, gap (12%), condim; 3 worlds; every third case gives the geoms different "
-  "solmix / solref / solimp / friction / margin / gap per world through Model fields with 2 or 3 rows. Non-trivial: flex with "
+  "solmix / solref / solimp / friction / margin / gap per world through Model fields with 2 or 3 rows. Rigid-body family (case "
+  "kind 'rigid'): a dim 1/2 <deformable><flex body=...> with edge equality whose 3-4 vertices sit with non-zero offsets on rigid "
+  "bodies of different kinematic trees with free / ball / hinge joints (off-centre anchors and masses), random orientations and "
+  "angular velocities; flexvert_xpos, flexedge_length / velocity / J vs MuJoCo and flexedge_velocity vs flexedge_J @ qvel. Non-trivial: flex with "
   ">=3 vertices displaced from qpos0 and at least one active flex mechanism; distinct by hash(xml, qpos, qvel)."
 )
 ASSUMPTIONS = [
@@ -66,7 +69,153 @@ def cases(tier, seed):
     inter.append(c)
     if i % step == step - 1 and mixc:
       inter.append(mixc.pop(0))
-  return out + inter + mixc
+  # flexes defined directly over rigid bodies of different kinematic trees (vertex bodies with rotational dofs); cheap, run first
+  nrig = 24 if tier == "quick" else 200
+  rig = [{"id": f"rig{seed}_{i}", "kind": "rigid", "seed": 9000000 + seed * 100000 + i} for i in range(nrig)]
+  return out + rig + inter + mixc
+
+
+# ------------------------------------------------------------------------------------ flex over rigid bodies
+# <deformable><flex body="a b c" vertex=... element=...>: every vertex sits, with a non-zero local offset, on a rigid body
+# that is the root of its own kinematic tree and has rotational dofs (free / ball / hinge joint with an off-centre anchor).
+# The edge Jacobian column of such a dof is cdof_lin + cdof_ang x (vertex - subtree_com[root of THAT body]), so the lever arm
+# of each end of an edge refers to a different tree.  flexcomp flexes (slide joints only, cdof_ang = 0) never exercise this.
+# The joint patterns are a small fixed set (MJWarp kernels specialise on nv).
+
+RIGID_PATTERNS = (("free", "free", "free"), ("free", "ball", "hinge"), ("ball", "free", "hinge", "free"), ("hinge", "ball", "ball", "free"))
+
+
+def make_rigid_xml(seed):
+  rng = np.random.default_rng(seed + 11)
+  pat = list(RIGID_PATTERNS[int(rng.integers(len(RIGID_PATTERNS)))])
+  rng.shuffle(pat)
+  nb = len(pat)
+  dim = int(rng.choice([1, 2]))
+  bodies = []
+  for i, jt in enumerate(pat):
+    pos = np.array([0.4 * i, 0.0, 1.0]) + rng.uniform(-0.15, 0.15, size=3)
+    if jt == "free":
+      j = "<freejoint/>"
+    elif jt == "ball":
+      j = f'<joint type="ball" pos="{_f(rng.uniform(-0.1, 0.1, size=3))}"/>'
+    else:
+      ax = rng.normal(size=3)
+      j = f'<joint type="hinge" axis="{_f(ax / np.linalg.norm(ax))}" pos="{_f(rng.uniform(-0.1, 0.1, size=3))}"/>'
+    # off-centre geom: the subtree COM differs from the body frame origin
+    bodies.append(f'<body name="b{i}" pos="{_f(pos)}" euler="{_f(rng.uniform(-60, 60, size=3))}">{j}<geom type="box" size=".1 .05 .02" pos="{_f(rng.uniform(-0.05, 0.05, size=3))}" mass="{_f(rng.uniform(0.3, 2.0))}" contype="0" conaffinity="0"/></body>')
+  order = list(range(nb))
+  if rng.random() < 0.3:
+    rng.shuffle(order)  # vertex order != body order: the listed flexedge_J deviation (sequential writes, colind ignored)
+  verts = rng.uniform(0.03, 0.12, size=(nb, 3)) * rng.choice([-1.0, 1.0], size=(nb, 3))
+  if dim == 1:
+    elem = [x for i in range(nb - 1) for x in (i, i + 1)]
+  else:
+    elem = [0, 1, 2] if nb == 3 else [0, 1, 2, 1, 3, 2]
+  integ = str(rng.choice(["Euler", "RK4"]))
+  jac = str(rng.choice(["dense", "sparse"]))
+  xml = f"""<mujoco model="flexrigid{seed}">
+  <option timestep="0.002" gravity="0 0 {_f(rng.choice([0.0, -9.81]))}" integrator="{integ}" jacobian="{jac}"/>
+  <worldbody>{"".join(bodies)}</worldbody>
+  <deformable><flex name="fr" dim="{dim}" radius="0.01" body="{" ".join(f"b{i}" for i in order)}" vertex="{_f(verts.reshape(-1))}" element="{" ".join(map(str, elem))}"><contact selfcollide="none" contype="0" conaffinity="0"/></flex></deformable>
+  <equality><flex flex="fr"/></equality>
+</mujoco>"""
+  return xml, pat, dim
+
+
+def run_rigid(case):
+  import mujoco_warp as mjw
+
+  rec = core.Rec(case)
+  seed = case["seed"]
+  rng = np.random.default_rng(seed + 5)
+  xml, pat, dim = make_rigid_xml(seed)
+  try:
+    mjm = mujoco.MjModel.from_xml_string(xml)
+  except Exception as e:  # noqa
+    rec.rejected = f"mujoco compile: {e}"[:200]
+    rec.count("rejected_mujoco:" + str(e).split("\n")[0][:60])
+    return rec.result()
+  try:
+    m = mw.put_model(mjm)
+  except (NotImplementedError, ValueError) as e:
+    rec.rejected = f"put_model: {e}"[:200]
+    rec.count("rejected_put_model:" + str(e)[:60])
+    return rec.result()
+  vb = np.array(mjm.flex_vertbodyid)
+  eb = vb[np.array(mjm.flex_edge).reshape(-1, 2)]  # the two vertex bodies of every edge
+  # listed deviation flexedge_J:jointed-parent-or-second-flex (own dofs of body 1, then of body 2, written sequentially whatever colind says)
+  misordered = bool(np.any(mjm.body_dofadr[eb[:, 0]] >= mjm.body_dofadr[eb[:, 1]]))
+  cross_tree = int(np.sum(mjm.body_rootid[eb[:, 0]] != mjm.body_rootid[eb[:, 1]]))
+  nworld = 2 + int(seed % 2)
+  states = []
+  vamp = float(rng.choice([0.3, 1.0, 3.0]))
+  for _ in range(nworld):
+    st = sample_state(mjm, rng, [{"spacing": 0.1}])
+    qpos = np.array(mjm.qpos0) + rng.normal(size=mjm.nq) * 0.1
+    for j in range(mjm.njnt):
+      a = int(mjm.jnt_qposadr[j])
+      if mjm.jnt_type[j] == mujoco.mjtJoint.mjJNT_FREE:
+        a += 3
+      if mjm.jnt_type[j] in (mujoco.mjtJoint.mjJNT_FREE, mujoco.mjtJoint.mjJNT_BALL):
+        q = rng.normal(size=4)
+        qpos[a : a + 4] = q / np.linalg.norm(q)
+    st["qpos"] = qpos.astype(np.float32)
+    st["qvel"] = (rng.normal(size=mjm.nv) * vamp).astype(np.float32)
+    states.append(st)
+  d = mw.make_data(mjm, m, states, nconmax=16, njmax=64)
+  mjw.forward(m, d)
+  got = {k: mw.npy(getattr(d, k)) for k in ("flexvert_xpos", "flexedge_length", "flexedge_velocity")}
+  eJ = mw.npy(d.flexedge_J)
+  rn, ra, ci = mw.npy(m.flexedge_J_rownnz), mw.npy(m.flexedge_J_rowadr), mw.npy(m.flexedge_J_colind)
+
+  def ext(mjm_, mjd_):
+    o = {k: np.array(getattr(mjd_, k)) for k in ("flexvert_xpos", "flexedge_length", "flexedge_velocity")}
+    o["flexedge_J"] = dense_edge_J(mjm_, mjd_.flexedge_J, mjm_.flexedge_J_rownnz, mjm_.flexedge_J_rowadr, mjm_.flexedge_J_colind)
+    return o
+
+  for w in range(nworld):
+    ctx = f"world {w} (flex over rigid bodies {'/'.join(pat)}, dim {dim})"
+    ref, noise, _ = cmp.reference(mjm, states[w], stage, ext, seed=seed + w)
+    for k in ("flexvert_xpos", "flexedge_length", "flexedge_velocity"):
+      r = ref[k]
+      judge(rec, k, np.asarray(got[k][w]).reshape(-1)[: r.size].reshape(r.shape), r, A, noise[k], suffix=":rigid-bodies", ctx=ctx)
+    gJ = dense_edge_J(mjm, eJ[w], rn, ra, ci)
+    judge(rec, "flexedge_J", gJ, ref["flexedge_J"], A, noise["flexedge_J"], suffix=(":jointed-parent-or-second-flex" if misordered else ":rigid-bodies"), ctx=ctx)
+    # the VALUES of the stored Jacobian, read in the layout _flex_edges writes them (own dofs of vertex body 1, then of vertex
+    # body 2, from rowadr on; every vertex body here is a tree root with its own dofs only), so that they are judged also where
+    # that layout differs from colind (the listed deviation above)
+    gJs = np.zeros((mjm.nflexedge, mjm.nv))
+    for e in range(mjm.nflexedge):
+      p = int(ra[e])
+      for b in eb[e]:
+        n_, a_ = int(mjm.body_dofnum[b]), int(mjm.body_dofadr[b])
+        gJs[e, a_ : a_ + n_] = np.asarray(eJ[w]).reshape(-1)[p : p + n_]
+        p += n_
+    if misordered:
+      judge(rec, "flexedge_J", gJs, ref["flexedge_J"], A, noise["flexedge_J"], suffix=":rigid-bodies", ctx=ctx + " [values in write order]")
+    # internal consistency: the stored edge velocity is the stored edge Jacobian times qvel (float32 accumulation as noise)
+    qv = states[w]["qvel"].astype(np.float64)
+    acc = float((np.abs(gJs) @ np.abs(qv)).max()) * 1.2e-7
+    judge(rec, "flexedge_velocity", np.asarray(got["flexedge_velocity"][w])[: mjm.nflexedge], gJs @ qv, A, acc, suffix=":rigid-bodies:vs-J-qvel", ctx=ctx)
+    rec.cover("rigid:edges_velocity_vs_J_qvel", int(mjm.nflexedge))
+    spin = np.zeros(mjm.nbody, bool)  # bodies with an own rotational dof that is moving
+    for j in range(mjm.njnt):
+      da = int(mjm.jnt_dofadr[j])
+      rot = {int(mujoco.mjtJoint.mjJNT_FREE): slice(da + 3, da + 6), int(mujoco.mjtJoint.mjJNT_BALL): slice(da, da + 3), int(mujoco.mjtJoint.mjJNT_HINGE): slice(da, da + 1)}.get(int(mjm.jnt_type[j]))
+      if rot is not None and np.any(np.abs(states[w]["qvel"][rot]) > 1e-3):
+        spin[mjm.jnt_bodyid[j]] = True
+    rec.cover("rigid:edges_across_trees_second_body_spinning", int(np.sum((mjm.body_rootid[eb[:, 0]] != mjm.body_rootid[eb[:, 1]]) & spin[eb[:, 1]])))
+    rec.cover("rigid:edges_compared", int(mjm.nflexedge))
+  rec.cover("rigid:cases_run", 1)
+  rec.cover("rigid:cases_vertex_order_differs_from_dof_order", int(misordered))
+  rec.cover("features", "family:rigid-bodies")
+  rec.cover("features", f"rigid_dim{dim}")
+  for jt in set(pat):
+    rec.cover("features", "rigid_joint:" + jt)
+  if cross_tree:
+    rec.nontrivial(xml, *[s["qpos"] for s in states], *[s["qvel"] for s in states])
+  rec.sample = {"family": "rigid", "scene_seed": seed, "joints": pat, "dim": dim, "nv": mjm.nv, "nflexvert": mjm.nflexvert, "nflexedge": mjm.nflexedge, "worlds": nworld, "misordered": misordered}
+  return rec.result()
 
 
 # ------------------------------------------------------------------------------------ directed crash probes
@@ -691,6 +840,8 @@ def run_case(case):
 
   if case.get("kind") == "crash":
     return run_crash_probe(case)
+  if case.get("kind") == "rigid":
+    return run_rigid(case)
   rec = core.Rec(case)
   seed = case["seed"]
   rng = np.random.default_rng(seed + 5)
@@ -1152,6 +1303,11 @@ def requirements(agg, tier):
       unmet.append(f"contact-parameter mixing: fewer than 5 {p} pairs with contacts in both engines")
   if cov.get("rows:contact", 0) < 100:
     unmet.append("fewer than 100 flex contact rows (efc D / aref) compared")
+  # flex over rigid bodies: edges whose two ends sit on different kinematic trees, second body with a moving rotational dof
+  if cov.get("rigid:edges_across_trees_second_body_spinning", 0) < 50:
+    unmet.append(f"flex over rigid bodies: rigid:edges_across_trees_second_body_spinning = {cov.get('rigid:edges_across_trees_second_body_spinning', 0)} < 50 (world, edge) comparisons")
+  if cov.get("rigid:edges_velocity_vs_J_qvel", 0) < 30:
+    unmet.append("flex over rigid bodies: fewer than 30 edges with flexedge_velocity compared to flexedge_J @ qvel")
   if not any(k.startswith("mix:batched_field_rows:") for k in cov):
     unmet.append("no case with per-world (batched) geom contact parameters ran")
   return unmet
